@@ -90,7 +90,8 @@ def k02_h2o2_product_eaten(f):
     if set(_lost(f).keys()) != {"OO"}:
         return False
     sp = oracle.split_reaction(d.get("input", ""))
-    return sp is not None and "OO" in sp[1].split(".")[1:]
+    # the input may spell the peroxide with maps / brackets ([OH:70]O): compare canonical molecules
+    return sp is not None and any(oracle.canon(tok) == "OO" for tok in sp[1].split(".")[1:])
 
 
 KNOWN_PREDICATES = {"k02_h2o2_product_eaten": k02_h2o2_product_eaten}
